@@ -876,6 +876,11 @@ const MULTI: &[u32] = &[0xe9, 0x3bb, 0xdf, 0x20ac, 0x4e2d, 0x1f436, 0x10000, 0x1
 const JUNK: &[&str] = &[
     "#", "#\\", "\"abc", "#x", "#e", "#q", "|", "@", ",@", "#;", "#|", "|#", "\\", "#true", "#false", "#\\spac", "#\\xZZ", "\"\\xZZ;\"", "\"\\x41\"",
     "1e+3", "+inf.0", "....", ".5.", "1.2.3", "a;b", "#\\x110000", "#\\xD800", "#u8(", "#0=", "#0#", "#\\", "\"\\", "\"\\\"", "#(", "#xZZ", "#x(", "#b2", "#e#", "#\\x;",
+    // values beyond a machine word, odd prefix orders and cases, non-finite and huge exact conversions
+    "#\\x100000000", "#\\xFFFFFFFFFFFF", "#\\x0000000041", "#\\x-1", "\"\\x100000000;\"", "\"\\xFFFFFFFFFFFFFFFFF;\"", "a\\x100000000;b", "|\\x100000000;|",
+    "#xFFFFFFFFFFFFFFFFFFFFFFFF", "99999999999999999999999999999999999999999", "1e400", "-1e400", "1e-400", "#e1e39", "#e-1e39", "#e1e400", "#e#d1e39", "#i1/0",
+    "1/0", "#e1/0", "-0/5", "#x#e10", "#b#i101", "#d#d1", "#e#e1", "#X1F", "#E1.5", "#e#X10", "#B101", "#T", "#F", "#e+inf.0", "#e-nan.0", "-nan.0", "+nan.0", "1/2/3",
+    "#x1e5", "#xe/7", "#e1.5e10", "1+2i", "+i", "#e.5", "#i.5e1", "#x-FF", "#b-101/11", "#o777777777777777777777777",
     "\u{2003}", "\u{3000}a", "a\u{a0}b", "\u{85}", "#\\\u{e9}x", "#t\u{e9}", "#\u{e9}", "\"\u{1f436}", ".\u{e9}", "1\u{e9}", "+\u{3bb}", "-.", "+.", ".;", "a;",
 ];
 const SOUP_SEPS: &[&str] = &["", "", " ", " ", " ", "\n", "\t", "\r", "\r\n", ";c\n", " ;x\n", " ; \u{e9}\u{1f436} (\n", "\u{a0}", "\u{2003}", "\u{85}", "\u{3000}", "\u{200b}", "\u{feff}", "\u{2028}", "\u{b}", "\u{c}"];
